@@ -21,7 +21,7 @@ from __future__ import annotations
 import ast
 
 from ..astutil import calls, dotted, is_self_attr, kwarg, method_call, norm, walk
-from ..cfg import Builder, build_cfg, inline_self_methods
+from ..cfg import Builder, build_cfg, inline_local, inline_self_methods
 from ..flow import Defs, origins
 from ..loader import ClassInfo
 from ..paths import normal_only
@@ -132,7 +132,7 @@ def rule_f2(chk: Check, info) -> None:
         senders |= s
     funcs = connecting_functions(chk)
     for fi in funcs:
-        g = build_cfg(chk.proj, fi)
+        g = Builder(chk.proj, inline_local, 3).build(fi)  # verification may live in a helper
         sends = [n for n in g.nodes if n.ast is not None and n.kind == "stmt" and any(method_call(c) and method_call(c)[1] in senders for c in calls(n.ast))]
         if not chk.require("F2", fi.key, "deferred send call", len(sends), 1, "the session never triggers the deferred send: with TOFU active no request would ever be sent (or it is sent at connect time)"):
             continue
